@@ -31,6 +31,7 @@ type Harness struct {
 	startLn  int
 	endLn    int
 	Requires []string
+	Vacuity  bool
 }
 
 type Program struct {
@@ -409,7 +410,49 @@ func (g *ghostGen) generate() (string, []*Harness) {
 				drv = append(drv, h.GhostFn+driverArgs(tps, it.Inst))
 				g.harn = append(g.harn, h)
 			}
+			if len(reqs) > 0 && ei > 0 {
+				// reachability check behind the preconditions: must be refuted
+				h := &Harness{Item: it, Clause: -1, GhostFn: base + "_vac", Requires: reqs, Vacuity: true, Oblig: itemDisplayName(it) + "/vacuity:requires-satisfiable"}
+				var fb strings.Builder
+				fmt.Fprintf(&fb, "func %s%s(%s) bool {\n", h.GhostFn, tparamsDecl(tps), paramDecl)
+				for _, r := range reqs {
+					fmt.Fprintf(&fb, "\tif !(%s) {\n\t\treturn true\n\t}\n", r)
+				}
+				fmt.Fprintf(&fb, "\treturn false\n}\n\n")
+				h.startLn = strings.Count(body.String(), "\n")
+				body.WriteString(fb.String())
+				h.endLn = strings.Count(body.String(), "\n")
+				drv = append(drv, h.GhostFn+driverArgs(tps, it.Inst))
+				g.harn = append(g.harn, h)
+			}
 		}
+	}
+	// engine canary: an obligation that must fail
+	{
+		props := map[string]bool{}
+		for _, cf := range g.cf {
+			for _, it := range cf.Items {
+				for _, pr := range it.Props {
+					props[pr] = true
+				}
+			}
+		}
+		var pl []string
+		for pr := range props {
+			pl = append(pl, pr)
+		}
+		sort.Strings(pl)
+		dir := g.src.dir
+		if dir == "" {
+			dir = "fp"
+		}
+		it := &Item{Kind: "lemma", Name: "canary", PkgDir: g.src.dir, Props: pl, File: "(generated)"}
+		h := &Harness{Item: it, Clause: -1, GhostFn: "V_canary_false", Vacuity: true, Oblig: dir + ".canary/must-fail"}
+		h.startLn = strings.Count(body.String(), "\n")
+		body.WriteString("func V_canary_false(a, b int) bool {\n\treturn a == b\n}\n\n")
+		h.endLn = strings.Count(body.String(), "\n")
+		drv = append(drv, h.GhostFn)
+		g.harn = append(g.harn, h)
 	}
 	bodyEmit("func V_driver() []any {\n\treturn []any{\n")
 	for _, d := range drv {
